@@ -781,8 +781,12 @@ class Hist:
 
 # --------------------------------------------------------------------------- generators
 
-IDS = ["A", "B", "C", "D", "", "å"]
+IDS = ["A", "B", "C", "D", "", "å", "K\udcf6k"]
 TEXT = [None, "", "c1", "c2", "ü✓", "\U0001f600x", "pw \"q\"", "0"]
+# every str Python can hold is a legitimate value: lone surrogates (what os.fsdecode / surrogateescape produce
+# for undecodable bytes), unpaired high / low surrogates, NUL, line/paragraph separators, U+FFFF, non-BMP, ...
+ODD_TEXT = ["K\udcf6k", "\ud800", "\udfff", "\ud83d", "a\ude00", "\x00", "x\x00y", "\u2028\u2029", "\uffff", "\ufeffbom",
+            "\U0010ffff", "\x7f\x1b[0m", "\\u0041 \\", "\r\n\t", "e\u0301"]
 
 
 def rand_cfg(rng, sections, allow_extra_pw=False):
@@ -791,10 +795,10 @@ def rand_cfg(rng, sections, allow_extra_pw=False):
     out = []
     for p in ps:
         i = rng.choice(IDS) if rng.random() < 0.85 else None
-        cr = rng.choice(TEXT) if rng.random() < 0.6 else None
+        cr = rng.choice(TEXT + ODD_TEXT[:4]) if rng.random() < 0.6 else None
         pw = None
         if (p in has_pw or allow_extra_pw) and rng.random() < 0.3:
-            pw = rng.choice(TEXT)
+            pw = rng.choice(TEXT + ODD_TEXT[:4])
         out.append({"p": p, "id": i, "cr": cr, "pw": pw, "en": rng.random() >= 0.2})
     return out
 
@@ -805,9 +809,9 @@ def candidates(f):
     if f[0] == "mac":
         return ["02:70:79:61:74:76", "AA:bb:0c:1D:2e:3F", "00:00:00:00:00:00", "FF:FF:FF:FF:FF:FF", "aa:bb:cc:dd:ee:0f"]
     if ty == "optstr":
-        return TEXT + ["X7", "Ab Cd", " lead", "trail ", "UPPER", "line\nbreak"] + IDS
+        return TEXT + ["X7", "Ab Cd", " lead", "trail ", "UPPER", "line\nbreak"] + IDS + ODD_TEXT
     if ty == "str":
-        return [t for t in TEXT if t is not None] + [f[2], "日本", "Ab Cd", "UPPER:lower", " x "]
+        return [t for t in TEXT if t is not None] + [f[2], "日本", "Ab Cd", "UPPER:lower", " x "] + ODD_TEXT
     if ty == "int":
         return [0, 1, -1, 7000, 65535, 2 ** 40, -2 ** 40, f[2]]
     return list(ty[1])
@@ -1240,9 +1244,9 @@ def replay(ctx, path):
         drv.close()
     for o in h.rops:
         if o["op"].startswith("py"):
-            print("executed:", json.dumps(o, ensure_ascii=False))
+            print("executed:", json.dumps(o))
     for o, x in zip(h.ops, h.obs):
-        print(json.dumps(o, ensure_ascii=False), "->", x)
+        print(json.dumps(o), "->", json.dumps(x))
     keys = sorted(set(k for k, _ in h.errors))
     for k, w in h.errors:
         print("%s: %s" % (k, w))
